@@ -45,6 +45,9 @@ BackBlankWord(tab, t, c) == MaxOf({p \in BlankStarts(tab, t) : p < c} \cup {0})
 Next(tab, cfg, ed, op) ==
   LET t == ed.text  c == ed.cur  n == Len(ed.text) IN
   CASE op.k \in {"ins", "paste"} -> {Ed(Ins(t, c, op.gs), c + Len(op.gs))}
+    \* a key whose text joins the cluster left of the cursor (op.i, a logged segmentation fact): that
+    \* cluster becomes op.gs[1]; the number of graphemes and the cursor do not change
+    [] op.k = "insjoin" -> {IF c > 0 /\ t[c] = op.i THEN Ed([t EXCEPT ![c] = op.gs[1]], c) ELSE Ed(Ins(t, c, op.gs), c + 1)}
     [] op.k = "left"    -> {Ed(t, IF c > 0 THEN c - 1 ELSE 0)}
     [] op.k = "right"   -> {Ed(t, IF c < n THEN c + 1 ELSE n)}
     [] op.k = "home"    -> {Ed(t, 0)}
